@@ -1,7 +1,7 @@
 """C06 - the peer state machine follows RFC 6733 and opens only for the configured peer."""
 import ast
 
-from ..astutil import make_cfg, call_name, fn_calls, must_pass, node_calls, walk_no_nested, kwarg, witness_avoiding
+from ..astutil import strip_doc, make_cfg, call_name, fn_calls, must_pass, node_calls, walk_no_nested, kwarg, witness_avoiding
 from ..paths import enum_paths, eval_bool
 from .. import psm
 
@@ -207,22 +207,25 @@ def check(ctx):
                 ctx.decide(nd == 1, "R-PATH/delivery", f"{ci.qual}.run", W(ci, p), "exactly one delivery per tick",
                            f"{nd} deliveries on one tick - {p.describe()}", key=f"deliver1:{sorted(p.atoms.items())}", nontrivial=False)
     ctx.floor("delivering_paths", ndel, 1)
-    callers = []
+    # who delivers: the application queue is fed by the delivery helper of State, or by a method of Open that does the same
+    # in place; the helper is called only from methods of Open
+    callers, putters = [], []
     for fi in repo.funcs.values():
         for cc in fn_calls(fi.node):
             if call_name(cc).endswith("notify_postprocess_message"):
                 callers.append(fi)
-    okc = bool(callers) and all(fi.cls is not None and fi.cls.name == "Open" for fi in callers)
-    ctx.decide(okc, "R-WHO/delivery", f"{st.qual}.notify_postprocess_message", st.where(),
-               "notify_postprocess_message is called only from methods of Open",
-               f"notify_postprocess_message is called from {[fi.qual for fi in callers]}", key="who_delivers")
-    putters = []
-    for fi in repo.funcs.values():
-        for cc in fn_calls(fi.node):
             if call_name(cc).endswith("postprocess_recv_messages.put"):
-                putters.append(fi.qual)
-    ctx.decide(putters == [f"{st.qual}.notify_postprocess_message"], "R-WHO/delivery", f"{st.qual}.notify_postprocess_message", st.where(),
-               "only notify_postprocess_message feeds the application queue", f"application queue is fed by {putters}", key="who_puts")
+                putters.append(fi)
+    is_open_method = lambda fi: fi.cls is not None and fi.cls.name == "Open"
+    is_helper = lambda fi: fi.cls is not None and fi.cls.name == "State" and fi.name == "notify_postprocess_message"
+    okc = all(is_open_method(fi) for fi in callers) and (bool(callers) or any(is_open_method(fi) for fi in putters))
+    ctx.decide(okc, "R-WHO/delivery", f"{st.qual}.notify_postprocess_message", st.where(),
+               "messages are handed to the application only from methods of Open",
+               f"the delivery helper is called from {[fi.qual for fi in callers]}", key="who_delivers")
+    okp = bool(putters) and all(is_helper(fi) or is_open_method(fi) for fi in putters) and len({fi.qual for fi in putters}) == 1
+    ctx.decide(okp, "R-WHO/delivery", f"{st.qual}.notify_postprocess_message", st.where(),
+               "one function feeds the application queue (the delivery helper, or a method of Open)",
+               f"application queue is fed by {[fi.qual for fi in putters]}", key="who_puts")
 
     # ---- 9 state table ---------------------------------------------------------------------------------------------------
     ctx.clause = "9-state-table"
@@ -388,6 +391,36 @@ def _validators(ctx, repo):
                        f"{cname}.{mname}: validity threshold {thr} vs {len(mand)} mandatory checks {names}; Origin-Host/Origin-Realm "
                        f"checks against self.connection present={okn and okc}: a message from another peer can be accepted",
                        key="threshold")
+            # the acceptance must IMPLY that the Origin-Host and the Origin-Realm validator each matched an AVP of the message.
+            # A counter that other validators also increment does not (two Host-IP-Address AVPs make up for a wrong
+            # Origin-Host): each identity validator needs evidence of its own - a variable only its branch modifies - that the
+            # acceptance test requires.
+            from ..astutil import guards as _guards, guard_facts as _gf
+            g_ = _guards(fn)
+            modified_under = {}
+            for st_ in walk_no_nested(fn):
+                if isinstance(st_, (ast.Assign, ast.AugAssign)):
+                    tg = st_.targets[0] if isinstance(st_, ast.Assign) else st_.target
+                    if not isinstance(tg, (ast.Name, ast.Attribute)):
+                        continue
+                    vs = {call_name(t).split(".")[-1] for t, v in g_.get(id(st_), []) if v and isinstance(t, ast.Call)}
+                    if vs:
+                        modified_under.setdefault(ast.unparse(tg), set()).update(vs)
+            accept = [st_ for st_ in walk_no_nested(fn) if isinstance(st_, ast.Assign) and ast.unparse(st_.targets[0]) == "self.is_valid"
+                      and isinstance(st_.value, ast.Constant) and st_.value.value is True]
+            for v in need:
+                dedicated = sorted(k for k, vs in modified_under.items() if vs == {v})
+                implied = bool(accept)
+                for a_ in accept:
+                    facts_, _ = _gf(g_.get(id(a_), []))
+                    implied = implied and any(facts_.get(d) is True or facts_.get(f"{d} == 1") is True or facts_.get(f"{d} >= 1") is True
+                                              or facts_.get(f"{d} > 0") is True for d in dedicated)
+                ctx.decide(implied, "R-DEP/identity-implied", f"{ci.qual}.{mname}", ci.where(fn),
+                           f"accepting the message requires evidence that {v} itself matched ({dedicated})",
+                           f"{cname}.{mname} accepts a message on the total of matched AVPs alone: nothing the acceptance test requires is "
+                           f"specific to {v} (variables only its branch modifies: {dedicated}), so AVPs matched by other validators "
+                           f"(e.g. a second Host-IP-Address or Disconnect-Cause) make up for a missing/wrong identity AVP and the machine "
+                           f"opens - or stays open - for a peer other than the configured one", key=f"implied:{v}")
             # is_valid = True only under the threshold test
             sets_true = [s for s in walk_no_nested(fn) if isinstance(s, ast.Assign) and ast.unparse(s.targets[0]) == "self.is_valid"
                          and isinstance(s.value, ast.Constant) and s.value.value is True]
@@ -569,29 +602,36 @@ def _classifiers(ctx, repo, m):
     for name, (req, code) in want.items():
         fn = ctx.need(um.funcs.get(name), f"bromelia.utils.{name}")
         p0 = fn.args.args[0].arg
+        # decided on terms under the four assumptions (R bit, command code of the message): truthy exactly for (req, code)
+        from .. import sym as _sc
+        MSG_ = _sc.S(p0)
+        HDR_ = ("attr", MSG_, "header")
         okall, seen = True, False
-        for p in enum_paths(fn.body, loops="skip"):
-            if p.term != "return":
-                continue
-            v = p.term_node.value
-            from .c12 import flatten_conds
-            facts = flatten_conds(p.conds())
-            if isinstance(v, ast.Constant) and v.value is True:
-                seen = True
-                r = facts.get(f"{p0}.header.is_request()")
-                cmp_ = [t for t, tr in facts.items() if tr and t.startswith(f"{p0}.header.command_code == ")]
-                cv = None
-                if cmp_:
-                    cv = repo.fold(um, ast.parse(cmp_[0].split("== ", 1)[1], mode="eval").body)
-                okall = okall and r is req and isinstance(cv, bytes) and int.from_bytes(cv, "big") == code
-            elif not (isinstance(v, ast.Constant) and v.value is False):
-                # `return cond` form
-                f2 = flatten_conds([(v, True)])
-                r = f2.get(f"{p0}.header.is_request()")
-                cmp_ = [t for t, tr in f2.items() if tr and t.startswith(f"{p0}.header.command_code == ")]
-                cv = repo.fold(um, ast.parse(cmp_[0].split("== ", 1)[1], mode="eval").body) if cmp_ else None
-                seen = True
-                okall = okall and r is req and isinstance(cv, bytes) and int.from_bytes(cv, "big") == code
+        for rbit in (True, False):
+            for actual in (257, 280, 282, 274):
+                def hook(t, rbit=rbit, actual=actual):
+                    if t == ("call", ("attr", HDR_, "is_request"), (), ()):
+                        return rbit
+                    if t == ("call", ("attr", HDR_, "is_answer"), (), ()):
+                        return not rbit
+                    if t == ("call", ("attr", HDR_, "get_command_code"), (), ()):
+                        return actual
+                    if isinstance(t, tuple) and t and t[0] == "cmp" and t[1] == "Eq":
+                        for x, y in ((t[2], t[3]), (t[3], t[2])):
+                            if x == ("attr", HDR_, "command_code") and isinstance(y, bytes):
+                                return int.from_bytes(y, "big") == actual
+                    return None
+                for p_ in _sc.Interp(fold=lambda e: repo.fold(um, e), hook=hook).run(strip_doc(fn.body), _sc.PathState({p0: MSG_}, [], [])):
+                    if p_.term not in ("return", "fall"):
+                        okall = False
+                        continue
+                    v = p_.value if p_.term == "return" else None
+                    tv = _sc.Interp().truth(v) if not isinstance(v, tuple) else None
+                    if tv is None and v is not None:
+                        okall = False          # the result still depends on something else
+                        continue
+                    seen = True
+                    okall = okall and bool(tv) == (rbit is req and actual == code)
         ctx.decide(okall and seen, "R-TABLE/classifier", f"bromelia.utils.{name}", f"{um.rel}:{fn.lineno}",
                    f"{name}: R bit {'set' if req else 'clear'} and command code {code}",
                    f"{name} does not classify exactly (R bit {'set' if req else 'clear'}, command code {code})", key="classifier")
